@@ -244,8 +244,12 @@ class Ctx:
                 self.known.append(f"KNOWN-FINDING: property={self.pid} {hit['what']}")
             else:
                 real.append(v)
+        # verdict lines must start on a fresh line even when stdout and stderr share one pipe
+        sys.stderr.write("\n")
+        sys.stderr.flush()
+        sys.stdout.flush()
         for k in sorted(set(self.known)):
-            print(k)
+            print(k, flush=True)
         rc = 0
         os.makedirs(os.path.join(VERIF, "replays", self.pid), exist_ok=True)
         for v in real:
@@ -256,7 +260,7 @@ class Ctx:
                 json.dump({"property": self.pid, "what": v["what"], "found_input": v["found_input"],
                            "broken": self.broken, "replay": v["replay"]}, f, indent=1, default=str)
             tail = "" if v["found_input"] else " no-failing-input-found"
-            print(f"VIOLATION property={self.pid} replay={path}{tail}")
+            print(f"VIOLATION property={self.pid} replay={path}{tail}", flush=True)
             rc = 1
         self.write_evidence(level, checker_cmd, explanation, len(real))
         shutil.rmtree(self.work, ignore_errors=True)
